@@ -89,7 +89,7 @@ def run(ctx):
         srcs = [e["source"] for e in ents if e["source"] is not None]
         ctx.ob("E4.loop", fkc + "/covers-all", [R.covers_all(s, "pks") for s in srcs] == ["all"], "the per-entry construction iterates the caller's iterator itself: %s" % [show(s, 4) for s in srcs], where=where(c))
         for b in R.ok_blocks(c):
-            lits = G.path_literals(ev, b, P)
+            lits = G.path_literals(ev, b, P, checks_only=True)
             pair = [a for a, p in lits if p and a[1] == "is_identity" and a[2].op == "call" and B.cname(a[2]) == "Pairing::pairing"]
             ctx.ob("E4.pairing", fkc + "/ok", len(pair) == 1, "Ok exit dominated by is_identity(pairing(pairs)) == true", where=where(c, b))
         pushes = [s for s in ev.sites.values() if s.callee[0] == "Vec::<T, A>::push"]
@@ -126,7 +126,7 @@ def check_basic_uniqueness(ctx, P):
         # its outcome controls an Err exit
         controls = False
         for e in errs:
-            for atom, pol in G.path_literals(ev, e, P):
+            for atom, pol in G.path_literals(ev, e, P, checks_only=True):
                 if any(x.op == "call" and B.cname(x) in SET_INSERTS for x in subterms(atom[2])):
                     controls = True
         srcs = [R.covers_all(sr, "pks") for _, sr in R.loop_sources(f)]
